@@ -13,15 +13,16 @@
 (* in its output directory (C11 second sentence, C14 delivery, C17 end to  *)
 (* end).                                                                   *)
 (***************************************************************************)
-EXTENDS Processor, Json, TLC
+EXTENDS Processor, Json, TLC, FiniteSets
 
-VARIABLES l, mfiles, mcur, cfiles, ccur
+VARIABLES l, mfiles, mcur, cfiles, ccur,
+          nStarts, nBad, nConn          \* predicted: motion recordings started, bad frames, connections (this daemon run)
 
 Trace == ndJsonDeserialize("trace.ndjson")
 T == Trace[l]
-svars == <<pvars, l, mfiles, mcur, cfiles, ccur>>
+svars == <<pvars, l, mfiles, mcur, cfiles, ccur, nStarts, nBad, nConn>>
 
-TInit == /\ l = 1 /\ mfiles = <<>> /\ mcur = <<>> /\ cfiles = <<>> /\ ccur = <<>>
+TInit == /\ l = 1 /\ mfiles = <<>> /\ mcur = <<>> /\ cfiles = <<>> /\ ccur = <<>> /\ nStarts = 0 /\ nBad = 0 /\ nConn = 0
          /\ N = 1 /\ TrigF = 0 /\ MinF = 0 /\ MaxF = 0 /\ ConstOn = FALSE /\ InitState
 
 (* fold the calls of one step into the predicted files *)
@@ -37,8 +38,10 @@ Collect(st, cs) ==
                [] c.s = "c" /\ c.op = "stop"  -> (IF st.ccur = <<>> THEN st ELSE [st EXCEPT !.cfiles = Append(@, st.ccur), !.ccur = <<>>])
                [] OTHER -> st
   IN Collect(st1, Tail(cs))
-Upd == \E st \in {Collect([mfiles |-> mfiles, mcur |-> mcur, cfiles |-> cfiles, ccur |-> ccur], out')} :
-         mfiles' = st.mfiles /\ mcur' = st.mcur /\ cfiles' = st.cfiles /\ ccur' = st.ccur
+Upd == /\ \E st \in {Collect([mfiles |-> mfiles, mcur |-> mcur, cfiles |-> cfiles, ccur |-> ccur], out')} :
+            mfiles' = st.mfiles /\ mcur' = st.mcur /\ cfiles' = st.cfiles /\ ccur' = st.ccur
+       /\ nStarts' = nStarts + Cardinality({i \in DOMAIN out' : out'[i].s = "m" /\ out'[i].op = "start"})
+       /\ UNCHANGED nConn
 
 AllOk(mo) == [motion |-> mo, win |-> TRUE, disk |-> TRUE, mStart |-> TRUE, mPre |-> 0, mW |-> TRUE, mStop |-> TRUE,
               cStart |-> TRUE, cW |-> TRUE, cStop |-> TRUE, sStart |-> TRUE, sW |-> TRUE, sStop |-> TRUE]
@@ -51,14 +54,29 @@ TConn == /\ T.ev = "conn"          \* a new camera connection: new processor, se
          /\ mcur' = <<>> /\ ccur' = <<>>       \* an interrupted motion recording is discarded; an unfinished continuous file has no .cptv name
          /\ mfiles' = (IF T.newrun THEN <<>> ELSE mfiles)        \* a new daemon run starts with an empty directory
          /\ cfiles' = (IF T.newrun THEN <<>> ELSE cfiles)
-TFrame == T.ev = "frame" /\ Frame(AllOk(T.motion)) /\ fid' = T.id /\ Upd
-TClear == T.ev = "clear" /\ Reset(TRUE) /\ Upd
-TBad   == T.ev = "bad" /\ BadFrame(TRUE, TRUE) /\ Upd
+         /\ nStarts' = (IF T.newrun THEN 0 ELSE nStarts) /\ nBad' = (IF T.newrun THEN 0 ELSE nBad)
+         /\ nConn' = (IF T.newrun THEN 1 ELSE nConn + 1)
+TFrame == T.ev = "frame" /\ Frame(AllOk(T.motion)) /\ fid' = T.id /\ Upd /\ UNCHANGED nBad
+TClear == T.ev = "clear" /\ Reset(TRUE) /\ Upd /\ UNCHANGED nBad
+TBad   == T.ev = "bad" /\ BadFrame(TRUE, TRUE) /\ Upd /\ nBad' = nBad + 1
+(* what the daemon told the other services over the system bus (fake bus): automatic FFC is switched on at every  *)
+(* connection and off / on around every motion recording; each bad frame is reported as a 'bad-thermal-frame'      *)
+(* event and answered with a camera restart request                                                              *)
+TBus == /\ T.ev = "bus" /\ UNCHANGED <<pvars, mfiles, mcur, cfiles, ccur, nStarts, nBad, nConn>>
+        /\ LET offs == Cardinality({i \in DOMAIN T.ffc : ~T.ffc[i]})
+               ons  == Cardinality({i \in DOMAIN T.ffc : T.ffc[i]})
+               v == (IF T.restarts # nBad THEN {"SYS:camera-restart-requests"} ELSE {})
+                    \cup (IF T.badevents # nBad THEN {"SYS:bad-frame-events"} ELSE {})
+                    \cup (IF T.ntest = 0 /\ offs # nStarts THEN {"SYS:auto-ffc-not-disabled-per-recording"} ELSE {})
+                    \cup (IF T.ntest = 0 /\ \E i \in 1..(Len(T.ffc) - 1) : ~T.ffc[i] /\ ~T.ffc[i + 1] THEN {"SYS:auto-ffc-left-disabled"} ELSE {})
+                    \cup (IF T.ntest = 0 /\ T.ffc # <<>> /\ ~T.ffc[1] THEN {"SYS:auto-ffc-not-enabled-at-connect"} ELSE {})
+           IN IF v = {} THEN TRUE ELSE PrintT(<<"VIOL", l, v, nStarts, nBad>>)
 (* The output directory holds the motion recordings and, when test recordings were requested (ntest), one file   *)
 (* of SnapLen+1 consecutive frames per request; the test files are what is left after removing the predicted     *)
 (* motion files.                                                                                                *)
 Consec(f) == \A i \in 1..(Len(f) - 1) : f[i + 1] = f[i] + 1
 TFiles == /\ T.ev = "files" /\ UNCHANGED <<pvars, mfiles, mcur, cfiles, ccur>>
+          /\ UNCHANGED <<nStarts, nBad, nConn>>
           /\ LET ntest == IF "ntest" \in DOMAIN T THEN T.ntest ELSE 0
                  inPred(f) == \E i \in DOMAIN mfiles : mfiles[i] = f
                  inObs(f) == \E i \in DOMAIN T.motion : T.motion[i] = f
@@ -70,6 +88,6 @@ TFiles == /\ T.ev = "files" /\ UNCHANGED <<pvars, mfiles, mcur, cfiles, ccur>>
                             THEN {"SYS:test-recording-files-wrong"} ELSE {})
                       \cup (IF T.constant # cfiles THEN {"SYS:continuous-files-differ"} ELSE {})
              IN IF v = {} THEN TRUE ELSE PrintT(<<"VIOL", l, v, mfiles, cfiles>>)
-TNext == l <= Len(Trace) /\ l' = l + 1 /\ (TConn \/ TFrame \/ TClear \/ TBad \/ TFiles)
+TNext == l <= Len(Trace) /\ l' = l + 1 /\ (TConn \/ TFrame \/ TClear \/ TBad \/ TFiles \/ TBus)
 Consumed == TLCGet("stats").diameter - 1 = Len(Trace)
 =============================================================================
